@@ -43,6 +43,9 @@ claimed = {
  "C16": dict(
    text="Algebraic slot model of the real KeySwitchProtocol (incl. zero target key = collective decryption) and PublicKeySwitchProtocol for 1-3 parties, maximum level and level 0, with and without P: Dec under the target key of the switched ciphertext equals Dec under the ideal secret of the input up to error atoms, the aggregate is independent of order, every share carries a smudging error atom. Encryption-to-shares, refresh and masked transform (big-integer masks, encoders) are outside.",
    ref="DESIGN.md §6-C16", technique="SSA symbolic execution in the algebraic slot model + SMT (LIA) on the normalised identities"),
+ "C20": dict(
+   text="Algebraic slot model of the real rgsw.Encryptor and rgsw.Evaluator.ExternalProduct (in place and out of place): RLWE(m) x RGSW(g) decrypts to m*g up to error atoms for the general path with one and several auxiliary primes, the power-of-two path without P and the single-modulus 32-bit fast path, whose un-reduced 64-bit accumulation is tracked as a range obligation; each harness is additionally executed once natively (validation run on realistic primes), which checks the magnitude of the noise that the algebraic model cannot see. Blind rotation (LUT scaling, mod-switch) is outside.",
+   ref="DESIGN.md §6-C20", technique="SSA symbolic execution in the algebraic slot model + SMT (LIA) on the normalised identities; tracked lazy ranges; native validation run"),
  "C19": dict(
    text="Symbolic execution of rlwe.CheckModuli with a symbolic candidate modulus and an arbitrary primality oracle (solver characterises every accepted size), plus boundary witnesses (real primes) checked against the 61-bit size the arithmetic layer supports (8q<=2^64, from the C01 stage invariants).",
    ref="DESIGN.md §6-C19", technique="SSA symbolic execution + SMT (BV) over the acceptance predicates; concrete boundary witnesses replayed natively"),
